@@ -28,8 +28,11 @@ PID = "C13"
 ENVS = ["tsp", "cvrp", "op:dist", "pctsp", "pdp", "sdvrp", "cvrptw", "spctsp"]
 
 
+_PK = ["am"]
+
+
 def sig(skey, observable, trigger):
-    return dict(property=PID, env=skey.partition(":")[0], config="am", observable=observable, trigger=trigger)
+    return dict(property=PID, env=skey.partition(":")[0], config=_PK[0], observable=observable, trigger=trigger)
 
 
 def instances_for(spec, tier, seed):
@@ -86,11 +89,12 @@ def strip(acts, finals):
 
 
 def unit(item):
-    skey, tier, seed, wseed = item
+    pkey, skey, tier, seed, wseed = item
+    _PK[0] = pkey
     spec = ALL_SPECS[skey]
     p = Partial()
     insts = instances_for(spec, tier, seed)
-    pol = make("am", spec.env(insts[0][1]), wseed)
+    pol = make(pkey, spec.env(insts[0][1]), wseed)
     trees = {}
     envs = {}
     for iid, inst in insts:
@@ -151,7 +155,7 @@ def unit(item):
                     finals = set(ev)
                     starts = [starts_all[r + i * B] for i in range(w)]
                     ref, tie = reference_beam(ev, starts, w)
-                    case = dict(kind="beam", spec=skey, wseed=wseed, batch=[dict(instance_id=i, instance=trees[i][0]) for i in batch], row=r, beam_width=w, select_best=select_best)
+                    case = dict(kind="beam", policy=pkey, spec=skey, wseed=wseed, batch=[dict(instance_id=i, instance=trees[i][0]) for i in batch], row=r, beam_width=w, select_best=select_best)
                     if ref is None:
                         p.add(infeasible_forced_starts=1)
                         continue
@@ -167,28 +171,28 @@ def unit(item):
                             acts = out["actions"][row].tolist()
                             s = strip(acts, finals)
                             if s is None:
-                                p.violation(sig(skey, "infeasible_beam", f"B={B}"), case, f"am x {skey} {iid}: beam {i} of width {w} returned {acts}, not a feasible complete sequence")
+                                p.violation(sig(skey, "infeasible_beam", f"B={B}"), case, f"{pkey} x {skey} {iid}: beam {i} of width {w} returned {acts}, not a feasible complete sequence")
                                 continue
                             got.append(s)
                             p.add(traces_validated_against_impl=1)
                             lps = out["log_likelihood"][row].tolist()
                             want = [0.0] + ev[s][0][1:]
                             if any(abs(a - b) > 2e-4 for a, b in zip(lps[: len(s)], want)):
-                                p.violation(sig(skey, "beam_logprobs", f"B={B}"), case, f"am x {skey} {iid}: beam {list(s)} carries per-step log-probs {[round(x, 4) for x in lps[:len(s)]]}, the policy assigns {[round(x, 4) for x in want]} along this sequence")
+                                p.violation(sig(skey, "beam_logprobs", f"B={B}"), case, f"{pkey} x {skey} {iid}: beam {list(s)} carries per-step log-probs {[round(x, 4) for x in lps[:len(s)]]}, the policy assigns {[round(x, 4) for x in want]} along this sequence")
                         if len(got) == w:
                             firsts = [g[0] for g in got]
                             if len(set(starts)) == len(starts) and len(set(got)) != len(got):
-                                p.violation(sig(skey, "duplicate_beams", f"B={B}"), case, f"am x {skey} {iid}: beams {got} are not pairwise distinct although their forced first moves {starts} are")
+                                p.violation(sig(skey, "duplicate_beams", f"B={B}"), case, f"{pkey} x {skey} {iid}: beams {got} are not pairwise distinct although their forced first moves {starts} are")
                             if tie:
                                 p.add(ties_skipped=1)
                             elif sorted(got) != ref_set:
-                                p.violation(sig(skey, "kept_beams", f"B={B}"), case, f"am x {skey} {iid}: width {w}: returned beams {sorted(got)} differ from the reference beam search {ref_set}")
+                                p.violation(sig(skey, "kept_beams", f"B={B}"), case, f"{pkey} x {skey} {iid}: width {w}: returned beams {sorted(got)} differ from the reference beam search {ref_set}")
                             p.outcome(f"{skey}|{sorted(got) == ref_set}")
                     else:
                         acts = out["actions"][r].tolist()
                         s = strip(acts, finals)
                         if s is None:
-                            p.violation(sig(skey, "infeasible_beam", f"B={B}|select_best"), case, f"am x {skey} {iid}: best beam {acts} is not a feasible complete sequence")
+                            p.violation(sig(skey, "infeasible_beam", f"B={B}|select_best"), case, f"{pkey} x {skey} {iid}: best beam {acts} is not a feasible complete sequence")
                             continue
                         if tie:
                             p.add(ties_skipped=1)
@@ -196,7 +200,7 @@ def unit(item):
                         best = max(ev[b][1] for b in ref_set)
                         rew = float(out["reward"][r])
                         if abs(rew - best) > 1e-5 * (1 + abs(best)) or abs(ev[s][1] - rew) > 1e-5 * (1 + abs(rew)):
-                            p.violation(sig(skey, "best_selection", f"B={B}"), case, f"am x {skey} {iid}: width {w} with best-selection returned {list(s)} with reward {rew}; maximum over the instance's beams {ref_set} is {best}, reward of the returned actions is {ev[s][1]}")
+                            p.violation(sig(skey, "best_selection", f"B={B}"), case, f"{pkey} x {skey} {iid}: width {w} with best-selection returned {list(s)} with reward {rew}; maximum over the instance's beams {ref_set} is {best}, reward of the returned actions is {ev[s][1]}")
         p.sample(dict(env=skey, batch=batch, num_starts=nstart, sequences_in_tree=[len(trees[i][2]) for i in batch]), cap=1)
     return p
 
@@ -210,7 +214,9 @@ def main(tier):
     ]
     seed = seed_from_env()
     only = os.environ.get("VERIF_ONLY")
-    items = [(k, tier, seed, ws) for k in ENVS if not only or only in k for ws in ((0,) if tier == "quick" else (0, 1))]
+    items = [("am", k, tier, seed, ws) for k in ENVS if not only or only in k for ws in ((0,) if tier == "quick" else (0, 1))]
+    # a weight-free heat-map policy reaches environments whose reward is part of the episode state (mTSP minmax)
+    items += [("heatmap", k, tier, seed, 0) for k in ("mtsp:minmax", "tsp", "cvrp") if not only or only in k]
     rep.merge_all(pmap(unit, items))
     return rep.finish()
 
@@ -223,7 +229,7 @@ def replay(rec):
     orig = me.instances_for
     me.instances_for = lambda s, t, sd: insts
     try:
-        p = unit((rec["spec"], "quick", 0, rec["wseed"]))
+        p = unit((rec.get("policy", "am"), rec["spec"], "quick", 0, rec["wseed"]))
     finally:
         me.instances_for = orig
     return bool(p.violations), "; ".join(v["msg"] for v in p.violations[:3]) or "beams agree with the reference"
